@@ -178,7 +178,11 @@ def strip(eng, v, left=True):
         if not (WS <= excl(eng, out[0])):
             raise Unsupported('strip: leading atom may start with whitespace')
         if len(out) > 1 and isinstance(out[1], str) and out[1][:1] in WS and _maybe_empty(eng, out[0]):
-            raise Unsupported('strip: possibly empty atom followed by whitespace')
+            # the path splits on whether the atom is empty: if it is, stripping goes on behind it
+            if eng.pure:
+                raise Unsupported('strip: possibly empty atom followed by whitespace')
+            if eng.branch(z3.Length(out[0].z) == 0):
+                return strip(eng, build(out[1:]), left)
     while out and isinstance(out[-1], str):
         s = out[-1].rstrip()
         if s:
@@ -189,7 +193,10 @@ def strip(eng, v, left=True):
         if not (WS <= excl(eng, out[-1])):
             raise Unsupported('strip: trailing atom may end with whitespace')
         if len(out) > 1 and isinstance(out[-2], str) and out[-2][-1:] in WS and _maybe_empty(eng, out[-1]):
-            raise Unsupported('strip: possibly empty atom preceded by whitespace')
+            if eng.pure:
+                raise Unsupported('strip: possibly empty atom preceded by whitespace')
+            if eng.branch(z3.Length(out[-1].z) == 0):
+                return strip(eng, build(out[:-1]), left)
     return build(out)
 
 
